@@ -23,12 +23,29 @@ ENTRIES = {
             "The GLM/GEE fits themselves are assumed to solve their score equations (measured: fitted values vs exact cell "
             "means).", "Lean 4 proof (regrouping by stratum + field algebra) + translator + differential correspondence",
             "DESIGN.md §6 C01"),
+    'C02': ("Lean theorems (any data set size, strata count, weights): AIPTW's generated pseudo-outcome means equal the "
+            "standardized mean when the outcome model satisfies the saturated score equations and the treatment "
+            "probabilities are arbitrary non-zero functions of the stratum, and when the treatment model is saturated and "
+            "the outcome predictions are arbitrary functions of (stratum, arm); same two halves for AIPSW (weights half "
+            "proved for unstabilized weights; the stabilized case is refuted by a kernel-checked witness = known finding "
+            "F11) and for TMLE (tmle_dr_*). Differential check feeds the model the implementation's fitted values for "
+            "every sub-model of the saturated model on the misspecified side; closed form evaluated directly.",
+            "GLM fits assumed to solve their score equations (measured).",
+            "Lean 4 proof (stratum regrouping, cancellation algebra, witness by norm_num) + translator + differential correspondence",
+            "DESIGN.md §6 C02"),
     'C07': ("Lean theorems on the definitions generated from zepid/calc/utils.py (textbook formulas, rejection iff a "
             "count is non-positive, swap/transpose laws) and on a hand model of the data-frame classes (cross-tab by "
             "masks, missing counters, one count-function call per level); generated code is re-translated every run and "
             "executed against the Python it came from.",
             "norm.ppf enters as a parameter (table entry supplied by scipy).",
-            "Lean 4 proof over translated source + differential correspondence", "DESIGN.md §6 C07"),
+            "Lean 4 proof over translated source + differential correspondence", "DESIGN.md §6 C07"),    'C16': ("Lean theorems: with saturated sampling / treatment / outcome models the IPSW weighted arm means (generated "
+            "IPSW/IOSW formulas x generated population treatment weights), the g-transport mean and the AIPSW combination "
+            "equal the sample's cell means standardized to all rows (generalize) or to the non-sampled rows (transport), "
+            "for any data set and stratum count; RD/RR are difference/ratio; outcomes recorded outside the sample cannot "
+            "influence any of the three (map-invariance theorem). Differential check on the implementation's fitted "
+            "values, exact closed form, junk-outcome variant.",
+            "GLM fits assumed to solve their score equations (measured).",
+            "Lean 4 proof + translator + differential correspondence", "DESIGN.md §6 C16"),
 }
 
 NOT_APPLICABLE = {}
